@@ -36,13 +36,17 @@ RULE = ("enum: one case = (world variant, first operation[, second operation]) r
         "one aliasing probe were judged in the case")
 EXHAUSTIVE = {"quick": False, "thorough": False}
 ASSUMPTIONS = [
-    "states are finite float64/complex128 numbers (the zero sensitivity is created as state*0: integer states, "
-    "non-finite states are outside pyMOTO's convention, see report); contributions to a real signal are real, "
-    "to a complex signal complex (real contributions only once a complex sensitivity exists or through a slice)",
+    "states are finite float64/complex128 numbers, bases have no zero-length axis. pyMOTO creates the zero sensitivity "
+    "as state*0, so integer states (DESIGN: outside the convention) and states containing inf/nan (the created "
+    "'zero' is nan there: Signal('x', [1, inf, 2])[0:1].add_sensitivity([2.]) -> [2, nan, 0]) are not generated",
+    "contributions to a real signal are real, to a complex signal complex (real contributions to a complex signal only "
+    "once a complex sensitivity exists or through a slice, where numpy's += keeps the complex array)",
     "slicing is exercised on arrays of rank>=1 (basic slices incl. negative/None bounds, negative steps and empty "
     "ranges, tuples of slices also mixed with integers and Ellipsis, integer, Ellipsis, 1-D/2-D integer arrays without "
     "repeats incl. negative entries, nested basic slices of depth 2-3); signals holding Python/numpy scalars or 0-d "
-    "arrays get whole-signal operations only (Ellipsis/() on a 0-d array is not a slice in the sense of the quantifier)",
+    "arrays get whole-signal operations only (Ellipsis/() on a 0-d array is not a slice in the sense of the quantifier; "
+    "observed and not generated: Signal('x', np.array(3.0))[...].add_sensitivity(2.0) raises TypeError when no "
+    "sensitivity exists, because np.array(3.0)*0 is an immutable numpy scalar)",
     "integer arrays index axis 0 and are only used un-nested (a nested fancy index reads a copy by numpy semantics)",
     "add_sensitivity(x) with the same shape as the target; scalar broadcasting only for state/sensitivity assignment "
     "through a slice (numpy assignment semantics)",
@@ -68,6 +72,12 @@ FLOORS = {
                  "mon_add_sensitivity": 150000},
 }
 TIMEOUT_CASE = 300
+UNREACHABLE = [
+    "Signal/SignalSlice.add_sensitivity branch for sensitivity objects that define their own add_sensitivity() "
+    "(user-defined types; aliasing there is the type's business)",
+    "Signal.reset fallback '*= 0' + warning path for sensitivity types without item assignment other than Python/numpy "
+    "scalars; the error-decoration branches of the SignalSlice getters/setters (only reached with inadmissible indices)",
+]
 
 ALPHABET = ["A", "S", "F", "N", "R", "RT", "RF", "RS", "W", "WS", "X", "XN", "XW", "P", "D"]
 ENUM_VARIANTS = [(sh, c, p) for sh in ((3,), (2, 3)) for c in (0, 1) for p in (0, 1)]
